@@ -5,7 +5,8 @@ import ast
 
 from ..core import Ctx
 from ..localnames import load_table
-from ..match import _atoms_with_polarity, arg, call_name, calls, fact_of, facts_at, is_param, local_defs, resolve, single_def, stores
+from ..match import _atoms_with_polarity, _match_chain, arg, fact_of, facts_at, is_param, local_defs, resolve, single_def, stores
+from ..match import calls as _all_calls
 from ..model import (NOCONST, AnalysisError, FuncInfo, ancestors, chain, clone, const_value, enclosing_function, enclosing_stmt, head, norm, parent,
                      strip_cast, walk_no_nested)
 
@@ -51,7 +52,16 @@ EXPLANATION = (
     "candidate list leaves the RetryRequestCache of an accepted hop registered; its timeout re-runs the retry for a filled position). "
     "Calls that do not consume answer data (logging, self.circuits.get(circuit_id)) get no such edge; the ordinary return without "
     "release in a state other than EXTENDING / READY is listed in the evidence, not reported. "
-    "``with contextlib.suppress(E)`` is given the control flow of try / except E: pass. Equality of derived keys is X25519/HKDF (trusted)."
+    "``with contextlib.suppress(E)`` is given the control flow of try / except E: pass. "
+    "Early binding: a local that is assigned exactly once (plainly or element-wise in ``a, b = x.m, y.n``) to a chain of attribute reads whose root "
+    "name has at most one binding denotes, where it is called, the bound method that chain denotes (same receiver object, same function); "
+    "``n = partial(f, a..)`` ... ``n(b..)`` runs f(a.., b..) at the place of the call of n (not where the partial is built). A callee picked from "
+    "a table - ``{k: self.m, ..}.get(e)`` / ``.get(e, None)`` (a missing key gives None, which runs nothing), ``next((fn for k, fn in <rows> if "
+    "<test>), None)`` over an evident display of rows - is every entry of the table, each analysed as a callee of that call. "
+    "Fresh ephemeral key (C08.fresh-dh-secret): every value stored as a hop's dh_secret / dh_first_part (attribute store or Hop(..) argument, "
+    "anywhere below ipv8/messaging/anonymization) is element 0 / 1 of a generate_diffie_secret() call (or None): the authenticator of an answer covers "
+    "only DH(ephemeral, ephemeral) and the 16-bit identifier is visible to every relay on the path, so a reused ephemeral key lets the answer of an "
+    "earlier attempt towards another candidate verify for the retry. Equality of derived keys is X25519/HKDF (trusted)."
 )
 
 TC = "ipv8/messaging/anonymization/community.py"
@@ -60,6 +70,79 @@ CA = "ipv8/messaging/anonymization/caches.py"
 TU = "ipv8/messaging/anonymization/tunnel.py"
 
 VERIFY = "verify_and_generate_shared_secret"
+
+
+# ---- early binding: ``send = self.endpoint.send`` / ``verify, expand = self.crypto.verify_.., self.crypto.generate_..`` ... ``verify(..)``
+class _Scope:
+    """just enough of a FuncInfo for local_defs / single_def on the function a node lies in"""
+
+    def __init__(self, node):
+        self.node = node
+
+    def params(self) -> list[str]:
+        a = self.node.args
+        return [x.arg for x in a.posonlyargs + a.args] + ([a.vararg.arg] if a.vararg else []) + [x.arg for x in a.kwonlyargs] + ([a.kwarg.arg] if a.kwarg else [])
+
+
+def _bound_reference(fn, name: str, depth: int = 3) -> ast.AST | None:
+    """
+    The attribute chain ``root.a.b`` a local of function fn was bound to, if the local is assigned exactly once (plainly or element-wise
+    in ``x, y = e1, e2``) to a chain of plain attribute reads whose root name itself has at most one binding in fn: every later use of
+    the local denotes the (bound) method / attribute that chain denoted when the local was bound.
+    """
+    sc = _Scope(fn)
+    d = single_def(sc, name)
+    if d is None or d[1] is not None or depth <= 0:
+        return None
+    val = strip_cast(d[0])
+    if isinstance(val, ast.Name):
+        return _bound_reference(fn, val.id, depth - 1)
+    if not isinstance(val, ast.Attribute):
+        return None
+    root = val
+    while isinstance(root, ast.Attribute):
+        root = strip_cast(root.value)
+    if not isinstance(root, ast.Name) or len(local_defs(sc, root.id)) > (0 if root.id in sc.params() else 1):
+        return None
+    return val
+
+
+def _callee(c: ast.Call) -> ast.AST:
+    """the expression that denotes the callee of c: c.func, or the attribute chain a local in callee position was bound to once (early binding)"""
+    f = strip_cast(c.func)
+    if not isinstance(f, ast.Name):
+        return f
+    cached = c.__dict__.get("_c08_callee")
+    if cached is not None:
+        return cached
+    out = f
+    fn = None
+    for a in ancestors(c):
+        if isinstance(a, ast.Lambda) or isinstance(a, (ast.GeneratorExp, ast.ListComp, ast.SetComp, ast.DictComp)):
+            bound = {x.arg for x in ast.walk(a.args) if isinstance(x, ast.arg)} if isinstance(a, ast.Lambda) \
+                else {x.id for g in a.generators for x in ast.walk(g.target) if isinstance(x, ast.Name)}
+            if f.id in bound:
+                break
+        elif isinstance(a, (ast.FunctionDef, ast.AsyncFunctionDef)):
+            fn = a
+            break
+        elif isinstance(a, ast.ClassDef):
+            break
+    if fn is not None:
+        out = _bound_reference(fn, f.id) or f
+    c.__dict__["_c08_callee"] = out
+    return out
+
+
+def call_name(c: ast.Call) -> str | None:
+    f = _callee(c)
+    return f.attr if isinstance(f, ast.Attribute) else f.id if isinstance(f, ast.Name) else None
+
+
+def calls(fi_or_node, pattern=None, nested: bool = False):
+    """match.calls, with a callee that was bound early to a local matched by the attribute chain it denotes"""
+    out = _all_calls(fi_or_node, None, nested)
+    return out if pattern is None else [n for n in out if _match_chain(chain(_callee(n)), pattern)]
 
 
 # ------------------------------------------------------------------------------------ helpers (semantic recognition)
@@ -531,6 +614,10 @@ class _View:
         for a in e._attributes:
             if hasattr(e, a):
                 setattr(new, a, getattr(e, a))
+        if isinstance(new, ast.Call) and isinstance(new.func, ast.Call):
+            pre = _partial_applied(self.fi.module, new.func, new)
+            if pre is not None:
+                new = pre           # partial(f, a, k=b)(x, y) is f(a, x, y, k=b)
         if isinstance(new, ast.Call) and isinstance(new.func, ast.Call) and len(new.args) == 1 and not new.keywords and not isinstance(new.args[0], ast.Starred):
             # attrgetter("a")(x) is x.a, methodcaller("m", y)(x) is x.m(y), partial(f, a)(x) is f(a, x)
             r = _apply_callable(self.fi.module, new.func, new.args[0])
@@ -756,11 +843,40 @@ class _View:
             if a is None or b is None:
                 return None
             return [(r, fs + _atoms_with_polarity(f.test, True)) for r, fs in a] + [(r, fs + _atoms_with_polarity(f.test, False)) for r, fs in b]
+        if isinstance(f, ast.Call) and _is_builtin(self.fi.module, f.func, "next") and len(f.args) in (1, 2) and not f.keywords \
+                and isinstance(strip_cast(f.args[0]), ast.GeneratorExp) and len(strip_cast(f.args[0]).generators) == 1:
+            # ``next((fn for key, fn in <rows> if <test on key>), None)``: the first row of an evident table whose test holds
+            ge = strip_cast(f.args[0])
+            g = ge.generators[0]
+            rows = _row_items(self, g.iter) if not g.is_async else None
+            names = [x.id for x in g.target.elts] if isinstance(g.target, (ast.Tuple, ast.List)) and all(isinstance(x, ast.Name) for x in g.target.elts) else None
+            if not rows or names is None or len(set(names)) != len(names) or any(len(r) != len(names) for r in rows):
+                return None
+            out = []
+            for r in rows:
+                elt, tests = ge.elt, list(g.ifs)
+                for n, x in zip(names, r):
+                    elt = _subst_name(elt, n, x)
+                    tests = [_subst_name(t, n, x) for t in tests]
+                alts = self._callable_alternatives(elt, depth - 1)
+                if alts is None:
+                    return None
+                sel = [a for t in tests for a in _atoms_with_polarity(t, True)]
+                out += [(ref, fs + sel) for ref, fs in alts]
+            dflt = strip_cast(f.args[1]) if len(f.args) == 2 else None
+            if dflt is not None and not (isinstance(dflt, ast.Constant) and dflt.value is None):
+                alts = self._callable_alternatives(dflt, depth - 1)
+                if alts is None:
+                    return None
+                out += alts
+            return out
         table = key = default = None
         if isinstance(f, ast.Subscript):
             table, key = resolve(self.fi, f.value), f.slice
-        elif isinstance(f, ast.Call) and isinstance(f.func, ast.Attribute) and f.func.attr == "get" and len(f.args) == 2 and not f.keywords:
-            table, key, default = resolve(self.fi, f.func.value), f.args[0], f.args[1]
+        elif isinstance(f, ast.Call) and isinstance(f.func, ast.Attribute) and f.func.attr == "get" and len(f.args) in (1, 2) and not f.keywords \
+                and not any(isinstance(x, ast.Starred) for x in f.args):
+            # ``{..}.get(e)`` / ``{..}.get(e, None)``: a missing key gives None, which is not a function (calling it runs nothing of this repository)
+            table, key, default = resolve(self.fi, f.func.value), f.args[0], (f.args[1] if len(f.args) == 2 else ast.Constant(value=None))
         if isinstance(table, (ast.Tuple, ast.List)) and key is not None and default is None and isinstance(f, ast.Subscript) \
                 and not any(isinstance(x, ast.Starred) for x in table.elts):
             # (f, g)[i]: a tuple display used as a table
@@ -787,7 +903,7 @@ class _View:
                 else:
                     sel = [fact_of(ast.Compare(left=key, ops=[ast.Eq()], comparators=[k]), True)]
                 out += [(r, fs + sel) for r, fs in alts]
-            if default is not None:
+            if default is not None and not (isinstance(strip_cast(default), ast.Constant) and strip_cast(default).value is None):
                 alts = self._callable_alternatives(default, depth - 1)
                 if alts is None:
                     return None
@@ -824,6 +940,14 @@ class _View:
         f = strip_cast(c.func)
         if self._calls_wrapped(f):
             return [(self.wrapped[1], f, [])]        # the wrapper of a decorator runs the function it decorates
+        bound = _callee(c) if isinstance(f, ast.Name) and parent(c) is not None else f
+        if bound is not f:
+            # a local bound once to ``self.m`` / ``obj.m`` (early binding) and called later: the call runs that method
+            targets = self._resolve_ref(bound, c)
+            if not targets and isinstance(bound, ast.Attribute) and bound.attr not in _BUILTIN_METHODS:
+                same = [g for g in self.ctx.repo.all_functions() if g.name == bound.attr]
+                targets = same if len(same) == 1 and same[0].cls is not None else []
+            return [(targets[0], bound, [])] if len(targets) == 1 else []
         direct = isinstance(f, ast.Attribute) or isinstance(f, ast.Name) and not is_param(self.fi, f.id) and not local_defs(self.fi, f.id)
         if direct:
             try:
@@ -1489,7 +1613,7 @@ def _is_pending_hop(ctx: Ctx, fi: FuncInfo, e: ast.AST | None, site: ast.AST) ->
 def _retry_cache_call(v: "_View", c: ast.AST | None, name: str) -> bool:
     """c is ``self.request_cache.<name>(RetryRequestCache, circuit.circuit_id)`` in the terms of the outermost function"""
     c = strip_cast(c) if c is not None else None
-    return isinstance(c, ast.Call) and isinstance(c.func, ast.Attribute) and c.func.attr == name and v.xn(c.func.value) == "self.request_cache" \
+    return isinstance(c, ast.Call) and isinstance(_callee(c), ast.Attribute) and _callee(c).attr == name and v.xn(_callee(c).value) == "self.request_cache" \
         and len(c.args) + len(c.keywords) == 2 and chain(arg(c, 0, "prefix")) == "RetryRequestCache" and v.xn(arg(c, 1, "number")) == "circuit.circuit_id"
 
 
@@ -1620,6 +1744,22 @@ def _imported_as(mod, f: ast.AST, module: str, names: tuple[str, ...]) -> bool:
 
 def _is_builtin(mod, f: ast.AST, name: str) -> bool:
     return isinstance(f, ast.Name) and f.id == name and (mod is None or name not in getattr(mod, "imports", {}))
+
+
+def _partial_applied(mod, pc: ast.AST, c: ast.Call, share: bool = False) -> ast.Call | None:
+    """
+    ``f(a.., x.., k=.., m=..)`` for ``partial(f, a.., k=..)(x.., m=..)``: pc is the partial(...) call, c the call of its result. None if pc is not
+    an evident functools.partial call, or either call spreads ``*seq`` / ``**map``. share: reuse the argument nodes (they keep their place in the function).
+    """
+    pc = strip_cast(pc)
+    if not (isinstance(pc, ast.Call) and pc.args and (_imported_as(mod, pc.func, "functools", ("partial",)) or chain(pc.func) == "functools.partial")):
+        return None
+    if any(isinstance(a, ast.Starred) for a in list(pc.args) + list(c.args)) or any(k.arg is None for k in list(pc.keywords) + list(c.keywords)):
+        return None
+    cp = (lambda n: n) if share else clone
+    later = {k.arg for k in c.keywords}
+    return ast.Call(func=cp(pc.args[0]), args=[cp(a) for a in pc.args[1:]] + [cp(a) for a in c.args],
+                    keywords=[cp(k) for k in pc.keywords if k.arg not in later] + [cp(k) for k in c.keywords])
 
 
 def _apply_callable(mod, f: ast.AST, x: ast.AST) -> ast.AST:
@@ -2081,7 +2221,23 @@ def _verify_calls(v: _View) -> list[ast.Call]:
     cached = v.__dict__.get("_verify_calls")
     if cached is None:
         cached = [c for c in calls(v.fi) if call_name(c) == VERIFY]
+        prebound: dict = {}      # id(partial(..) call) -> the calls ``n(..)`` of the single-assignment local n it was bound to
         for c in calls(v.fi):
+            f = strip_cast(c.func)
+            sd = single_def(v.fi, f.id) if isinstance(f, ast.Name) else None
+            if sd is not None and sd[1] is None and isinstance(strip_cast(sd[0]), ast.Call):
+                prebound.setdefault(id(strip_cast(sd[0])), []).append(c)
+        for c in calls(v.fi):
+            if id(c) in prebound:
+                # ``verify = partial(f, a)`` ... ``verify(b, c)``: f runs where the local is called, with the arguments of both places
+                for use in prebound[id(c)]:
+                    syn = _partial_applied(v.fi.module, c, use, share=True)
+                    if syn is not None and isinstance(syn.func, (ast.Attribute, ast.Name)) and call_name(syn) == VERIFY:
+                        ast.copy_location(syn, use)
+                        syn._parent = use
+                        cached.append(syn)
+                if all(_partial_applied(v.fi.module, c, use, share=True) is not None for use in prebound[id(c)]):
+                    continue
             d = _deferred_call(v, c)
             if d is not None and call_name(d) == VERIFY:
                 cached.append(d)
@@ -2511,7 +2667,7 @@ def _answer_effect_sites(views: list[_View]) -> list[tuple[_View, ast.AST]]:
         out += [(v, c) for c in _verify_calls(v)]
         for c in calls(v.fi):
             if call_name(c) in ("remove_circuit", "send_extend", "send_initial_create") \
-                    or isinstance(c.func, ast.Attribute) and c.func.attr in ("pop", "add") and v.xn(c.func.value) == "self.request_cache":
+                    or isinstance(_callee(c), ast.Attribute) and _callee(c).attr in ("pop", "add") and v.xn(_callee(c).value) == "self.request_cache":
                 out.append((v, c))
     return out
 
@@ -2529,10 +2685,10 @@ def _effects_of(v: _View, node_ast: ast.AST, cls) -> list[tuple[ast.AST, str]]:
     out = []
     for x in walk_no_nested(node_ast):
         if isinstance(x, ast.Call):
-            c = chain(x.func) or ""
+            c = chain(_callee(x)) or ""
             if c.startswith(("self.logger.", "logger.", "logging.", "self._logger.")):
                 continue
-            f = strip_cast(x.func)
+            f = _callee(x)
             if isinstance(f, ast.Attribute) and f.attr in _MUTATORS and (v.xn(f.value) or "").startswith("self."):
                 out.append((x, f"`{norm(x)[:70]}` changes {v.xn(f.value)}"))
                 continue
@@ -2700,7 +2856,7 @@ class _PostAccept:
         ids = (f"{self.payload}.circuit_id", f"{self.circ}.circuit_id")
         out = []
         for p in calls(x.fi):
-            f = strip_cast(p.func)
+            f = _callee(p)
             if not isinstance(f, ast.Attribute):
                 continue
             if f.attr == "pop" and x.xn(f.value) == "self.request_cache" and len(p.args) + len(p.keywords) == 2 \
@@ -2749,11 +2905,11 @@ class _PostAccept:
                             for kv in kvs:
                                 out += self.escapes(kv)
                             continue
-                    c = chain(x.func) or ""
+                    c = chain(_callee(x)) or ""
                     from ..cfg import call_may_raise
                     if not call_may_raise(x) or c.startswith(("self.logger.", "logger.")) or c in _TOTAL_BUILTINS and c not in v.fi.module.imports:
                         continue
-                    f = strip_cast(x.func)
+                    f = _callee(x)
                     recv = f.value if isinstance(f, ast.Attribute) else None
                     operands = list(x.args) + [k.value for k in x.keywords] + ([recv] if recv is not None else [])
                     if isinstance(f, ast.Attribute) and f.attr in _PURE_READS and not any(_answer_data(v, a, self.payload, tainted) for a in list(x.args) + [k.value for k in x.keywords]):
@@ -2926,7 +3082,7 @@ def rule_identifier(ctx: Ctx) -> None:
         args_ok = False
         if w is not None:
             views = w.closure()
-            touched = [v.xn(x.func.value, obj=True) for v, x, kind in _accept_sites(views) if kind == "add_hop" and isinstance(x.func, ast.Attribute)]
+            touched = [v.xn(_callee(x).value, obj=True) for v, x, kind in _accept_sites(views) if kind == "add_hop" and isinstance(_callee(x), ast.Attribute)]
             touched += [v.xn(getattr(_store_target(x, "unverified_hop"), "value", None), obj=True) for v, x, kind in _accept_sites(views) if kind == "pending"]
             args_ok = bool(touched) and all(t == circ for t in touched) and _payload_intact(_root(r), payload)
         guard_ok = bool(gets) and ident_ok
@@ -2974,13 +3130,13 @@ def rule_identifier(ctx: Ctx) -> None:
         payload, circ, _hop = _circuit_terms(r)
 
         def retry_pops(x: _View) -> list[ast.AST]:
-            return [p for p in calls(x.fi) if isinstance(p.func, ast.Attribute) and p.func.attr == "pop" and x.xn(p.func.value) == "self.request_cache"
+            return [p for p in calls(x.fi) if isinstance(_callee(p), ast.Attribute) and _callee(p).attr == "pop" and x.xn(_callee(p).value) == "self.request_cache"
                     and len(p.args) + len(p.keywords) == 2 and chain(arg(p, 0, "prefix")) == "RetryRequestCache"
                     and x.xn(arg(p, 1, "number")) in (f"{payload}.circuit_id", f"{circ}.circuit_id")]
 
         for v in w.closure():
             for x in calls(v.fi):
-                if call_name(x) in ("send_extend", "send_initial_create") and isinstance(x.func, ast.Attribute) and v.xn(x.func.value) == "self":
+                if call_name(x) in ("send_extend", "send_initial_create") and isinstance(_callee(x), ast.Attribute) and v.xn(_callee(x).value) == "self":
                     ctx.check(_always(v, v.cfg.nodes_for(x), retry_pops), "identifier-match", v.fi, x,
                               f"`{norm(x)[:50]}` runs only after request_cache.pop(RetryRequestCache, <circuit id>) completed",
                               f"{v.fi.qualname} starts the next attempt with `{norm(x)[:60]}` while the RetryRequestCache of the hop that was just accepted can "
@@ -3108,7 +3264,7 @@ def rule_verify_before_accept(ctx: Ctx) -> None:
             ctx.check(_always(v, v.cfg.nodes_for(c), resets), "verify-before-accept", v.fi, c, "circuit.unverified_hop is cleared before add_hop on every path",
                       "the accepted hop stays registered as the pending hop on some path after add_hop: a duplicated answer is verified again and the same peer is appended twice")
             # the hop that is added is the unverified hop of this circuit
-            ok = isinstance(c.func, ast.Attribute) and v.xn(c.func.value, obj=True) == circ and len(c.args) == 1 and not c.keywords and v.xn(c.args[0]) == hop
+            ok = isinstance(_callee(c), ast.Attribute) and v.xn(_callee(c).value, obj=True) == circ and len(c.args) == 1 and not c.keywords and v.xn(c.args[0]) == hop
             ctx.check(ok, "verify-before-accept", v.fi, c,
                       "circuit.add_hop(hop) with hop = circuit.unverified_hop of self.circuits[circuit_id]",
                       "the hop appended is not the circuit's own unverified hop")
@@ -3279,6 +3435,80 @@ def rule_unverified_hop_writers(ctx: Ctx) -> None:
     for fi in (sic, se):
         g = [c for v in _entry(ctx, fi).closure() for c in calls(v.fi) if call_name(c) == "generate_diffie_secret"]
         ctx.check(len(g) == 1, "selected-peer-key", fi, fi.node, f"{fi.name}: fresh DH secret per attempt", "DH secret is not generated per attempt")
+    _fresh_dh_secret(ctx)
+
+
+def _dh_component(v: _View, e: ast.AST | None, idx: int | None) -> int | None:
+    """i if e (or element idx of e, when e is unpacked) is element i of the result of a generate_diffie_secret() call made in this function; else None"""
+    e = strip_cast(e) if e is not None else None
+    if idx is not None and isinstance(e, (ast.Tuple, ast.List)) and idx < len(e.elts) and not any(isinstance(x, ast.Starred) for x in e.elts):
+        e, idx = e.elts[idx], None
+    comp = _component(v, e)
+    if comp is None or not (isinstance(_callee(comp[0]), (ast.Attribute, ast.Name)) and call_name(comp[0]) == "generate_diffie_secret") \
+            or comp[0].args or comp[0].keywords:
+        # through a new helper that returns the pair (followed by expand)
+        x = v.expand(e) if e is not None else None
+        if idx is None and isinstance(x, ast.Subscript) and isinstance(const_value(x.slice), int) and not isinstance(const_value(x.slice), bool):
+            idx, x = const_value(x.slice), strip_cast(x.value)
+        if isinstance(x, ast.Call) and isinstance(x.func, (ast.Attribute, ast.Name)) and call_name(x) == "generate_diffie_secret" and not x.args and not x.keywords:
+            return idx
+        return None
+    key = comp[1]
+    if key is None:
+        return idx
+    return key if idx is None and isinstance(key, int) else None
+
+
+def _fresh_dh_secret(ctx: Ctx) -> None:
+    """
+    The originator's ephemeral DH key is what ties an answer to ONE attempt: the authenticator only covers DH(ephemeral, ephemeral), and the
+    16-bit identifier is seen by every relay on the path.  Every value stored as a hop's ``dh_secret`` (attribute store or Hop(..) argument) is
+    therefore element 0 of a generate_diffie_secret() call of its own (or None), and ``dh_first_part`` element 1.
+    """
+    repo = ctx.repo
+    want = {"dh_secret": 0, "dh_first_part": 1}
+    sites: list = []      # (function, statement / call, field, value expression, element index when the value is unpacked)
+    for m in repo.modules.values():
+        if not m.relpath.startswith("ipv8/messaging/anonymization/"):
+            continue
+        for node in ast.walk(m.tree):
+            if isinstance(node, ast.Attribute) and node.attr in want and isinstance(node.ctx, ast.Store):
+                fi, st = repo.function_of(node), enclosing_stmt(node)
+                val = idx = None
+                if isinstance(st, ast.AnnAssign):
+                    val = st.value if st.target is node else None
+                elif isinstance(st, ast.Assign):
+                    for t in st.targets:
+                        if t is node:
+                            val = st.value
+                        elif isinstance(t, (ast.Tuple, ast.List)) and any(x is node for x in t.elts) and not any(isinstance(x, ast.Starred) for x in t.elts):
+                            val, idx = st.value, [x is node for x in t.elts].index(True)
+                sites.append((fi, st, node.attr, val, idx))
+            elif isinstance(node, ast.Call) and isinstance(_callee(node), (ast.Name, ast.Attribute)) and call_name(node) == "Hop":
+                pa = _pargs(node, ["peer", "keys", "flags", "dh_first_part", "dh_secret"])
+                fi = repo.function_of(node)
+                if pa is None:
+                    if any(isinstance(a, ast.Starred) for a in node.args) or any(k.arg is None for k in node.keywords):
+                        raise AnalysisError(f"undecided: Hop(..) built from spread arguments in {fi.qualname if fi else m.relpath}")
+                    continue
+                for f, i in ((n, 3 + k) for k, n in enumerate(("dh_first_part", "dh_secret"))):
+                    if pa[i] is not None:
+                        sites.append((fi, node, f, pa[i], None))
+    n = 0
+    for fi, st, field, val, idx in sites:
+        if val is not None and idx is None and const_value(strip_cast(val)) is None:
+            continue        # reset
+        n += field == "dh_secret"
+        ok = False
+        if fi is not None and val is not None:
+            ok = _dh_component(_View(ctx, fi), val, idx) == want[field]
+        ctx.check(ok, "fresh-dh-secret", fi or "?", st, f"hop.{field} is element {want[field]} of a generate_diffie_secret() call made for this hop",
+                  f"`{norm(st)[:80]}` in {fi.qualname if fi else '?'} sets a hop's {field} from something other than a fresh generate_diffie_secret() result: "
+                  "the originator's ephemeral key is the only thing besides the 16-bit identifier (which every relay on the path sees) that ties a "
+                  "created/extended answer to one attempt (the authenticator covers only the ephemeral-ephemeral term); with a key that is reused, "
+                  "carried over or supplied from elsewhere an answer produced for an earlier attempt towards another candidate verifies for this hop, "
+                  "and the hop list names a peer the keys were not negotiated with")
+    ctx.floor("fresh-dh-secret", n, 2)
 
 
 def _closed_members(ctx: Ctx, root: FuncInfo) -> set[FuncInfo]:
@@ -3698,14 +3928,15 @@ def _route_installs(v: _View, table: str = "self.relay_from_to") -> list[tuple[a
                         val = st.value
                     add(st, e.slice, val)
     for c in calls(v.fi):
-        if not isinstance(c.func, ast.Attribute) or v.xn(c.func.value) != table:
+        cf = _callee(c)
+        if not isinstance(cf, ast.Attribute) or v.xn(cf.value) != table:
             continue
         st = enclosing_stmt(c)
-        if c.func.attr == "__setitem__" and len(c.args) == 2 and not c.keywords:
+        if cf.attr == "__setitem__" and len(c.args) == 2 and not c.keywords:
             add(st, c.args[0], c.args[1])
-        elif c.func.attr == "setdefault" and len(c.args) == 2 and not c.keywords:
+        elif cf.attr == "setdefault" and len(c.args) == 2 and not c.keywords:
             add(st, c.args[0], c.args[1])
-        elif c.func.attr == "update":
+        elif cf.attr == "update":
             rows = _mapping_rows(v, c.args[0]) if len(c.args) == 1 and not c.keywords else None
             if rows is None:
                 raise AnalysisError(f"undecided: {table}.update(..) in {v.fi.qualname} with something other than an evident mapping / sequence of pairs")
@@ -3771,8 +4002,8 @@ def rule_relay_pairing(ctx: Ctx) -> None:
     ov = _entry(ctx, oc)
     views = ov.closure()
     pl = oc.params()[2]
-    pops = [(v, p) for v in views for p in calls(v.fi) if isinstance(p.func, ast.Attribute) and p.func.attr == "pop"
-            and v.xn(p.func.value) == "self.request_cache" and chain(arg(p, 0)) == "CreateRequestCache"]
+    pops = [(v, p) for v in views for p in calls(v.fi) if isinstance(_callee(p), ast.Attribute) and _callee(p).attr == "pop"
+            and v.xn(_callee(p).value) == "self.request_cache" and chain(arg(p, 0)) == "CreateRequestCache"]
     ctx.anchor(pops, "CreateRequestCache pop in on_created")
     for v, p in pops:
         xf = _xfacts(v, p)
@@ -3883,6 +4114,10 @@ def run(ctx: Ctx) -> None:
 
 
 WITNESSES = [
+    {"name": "retry of an unanswered extend reuses the pending hop's ephemeral DH key", "file": TC, "rule": "fresh-dh-secret",
+     "old": "            hop.dh_secret, hop.dh_first_part = self.crypto.generate_diffie_secret()\n            circuit.unverified_hop = hop",
+     "new": "            pending = circuit.unverified_hop\n            hop.dh_secret, hop.dh_first_part = (pending.dh_secret, pending.dh_first_part) "
+            "if pending and pending.dh_secret else self.crypto.generate_diffie_secret()\n            circuit.unverified_hop = hop"},
     {"name": "created accepted without identifier match", "file": TC, "rule": "identifier-match",
      "old": "        if cache and cache.packet_identifier == payload.identifier:\n            self._ours_on_created_extended(circuit_id, payload)",
      "new": "        if cache:\n            self._ours_on_created_extended(circuit_id, payload)"},
